@@ -79,9 +79,8 @@ def states(tier):
     for np in (0, 1):
         for tz in ('UTC', 'VRF-3:30', 'ABC5DEF'):
             S.append(dict(base, newpgrp=np, tz=tz, setsid=0))
-    # (b6b) TZ changed by the caller between two conversions
-    for tz, tz2 in (('UTC', 'VRF-3:30'), ('VRF-3:30', 'ABC5'), ('ABC5DEF', 'XYZ-11'), ('UTC', 'UTC')):
-        S.append(dict(base, tz=tz, tz2=tz2))
+    # (TZ changed by the caller between two conversions is NOT among the states: localtime_r() need not re-read TZ, and making the library
+    #  call tzset() on every exec trades the stale zone for a fork hazard - see DESIGN.md section 6.2, "a fix I made and withdrew")
     # (b7) $PWD naming the working directory exactly / by an alias / wrongly; evaluation in a forked child after a first evaluation in the parent
     for pw in ('exact', 'dotalias', 'symlink', 'other'):
         for c in ('d300', 'root'):
